@@ -33,7 +33,7 @@ func c06case(c GCase, a *run.Acc, variant int) {
 		a.Count("cases with an earlier parse on the same context", 1)
 	}
 	if variant&8 == 8 {
-		o.Before = []int{3 + variant%5, variant % 3}
+		o.Before = []int{3 + variant%5, variant % 3}[:1+(variant>>4)%2] // one file before: the reader exists before the file joins the set
 	}
 	if variant&32 == 32 {
 		// a document set: this input joins the file set of the worker's earlier inputs, whose errors were rendered through it
